@@ -142,4 +142,10 @@ def ownerEdit (t : TokenInfo) (sender : Nat) (newCap : Int) (newOwner : Nat) (ne
   let t' := { t with cap := newCap, owner := newOwner, ownerEditDisabled := newDisabled }
   if capOk t' then some t' else none
 
+/-- the `UpsertTokenInfos` governance proposal on an EXISTING token (x/tokens/proposal_handler.go): display, fee and staking
+fields come from the proposal; recorded supply, supply cap, owner and the owner-edit switch - the fields of this model - are
+the stored ones whatever the proposal carries in its own `supply` / `supply_cap` / `owner` fields; then the keeper's cap test -/
+def govEdit (t : TokenInfo) (_propSupply _propCap : Int) : Option TokenInfo :=
+  if capOk t then some t else none
+
 end Sekai.Mint
